@@ -7,7 +7,7 @@ from enum import Enum
 from typing import TYPE_CHECKING
 
 # Third Party Imports
-from numpy import arccos, arcsin, cos, dot, log10, sin, sqrt
+from numpy import arccos, arcsin, clip, cos, dot, log10, sin, sqrt
 from scipy.linalg import norm
 
 # Local Imports
@@ -119,10 +119,15 @@ def calculateSunVizFraction(tgt_eci_position: ndarray, sun_eci_position: ndarray
     if c < abs(a + b):
         # Montenbruck Eq. 3.93
         x = (c**2 + a**2 - b**2) / (2 * c)
-        y = sqrt(a**2 - x**2)
+        # [NOTE]: Clip against rounding right at first/last contact, where |x| == a and c - x == b
+        y = sqrt(max(a**2 - x**2, 0.0))
 
         # Montenbruck Eqs. 3.92 & 3.94
-        A = a**2 * arccos(x / a) + b**2 * arccos((c - x) / b) - c * y  # noqa: N806
+        A = (  # noqa: N806
+            a**2 * arccos(clip(x / a, -1.0, 1.0))
+            + b**2 * arccos(clip((c - x) / b, -1.0, 1.0))
+            - c * y
+        )
 
         # Partial occultation
         return 1.0 - A / (PI * a**2)
